@@ -192,6 +192,17 @@ func c16Scenarios(tier string) []scenario {
 		n := prm.Name + "/" + prm.K.String()
 		scs = append(scs, scenario{Name: n, Cfg: tierCfg(tier, q, t), Setup: c16Setup(prm)})
 	}
+	// compressed writers emit several frames per message: more room between the Close frame and the rest
+	for _, k := range []connCfg{{Client: false, Flate: true, Thr: 1}, {Client: true, Flate: true, Thr: 1}} {
+		if tier != "thorough" && k.Client {
+			continue // executions with a compressor are slow (a 1.2 MB flate.Writer per execution)
+		}
+		if tier == "thorough" {
+			add(c16Params{Name: "local-early-w2", K: k, Init: "local", Echo: "early", Writers: 2}, P(1), P(2))
+		}
+		add(c16Params{Name: "peer-w1", K: k, Init: "peer", Echo: "early", Writers: 1}, P(1), P(2))
+		add(c16Params{Name: "proto-w1", K: k, Init: "proto", Echo: "early", Writers: 1}, P(1), P(2))
+	}
 	for _, k := range roles {
 		for _, echo := range []string{"early", "late", "never"} {
 			add(c16Params{Name: "local-" + echo + "-nowriter", K: k, Init: "local", Echo: echo}, P(2), P(-1))
